@@ -4,6 +4,8 @@ C07, part 2: schedules.
 * `DE.step2With`: one `_Step` of DifferentialEvolutionSolver2 (differential_evolution.py l.501-595) in which the map
   evaluates its work items in an arbitrary order `π` (a list of positions; every evaluation is atomic and appends
   to the evaluation monitor), and returns the results in input order.  `π = [0, 1, .., n-1]` is `python_map`.
+* `step2Proc`: the same step with MUTABLE work items: cost and penalty are procedures that may write to the vector
+  they are handed, the map hands each worker the item itself or a copy; `wrap_penalty`'s defensive copy is explicit.
 * `runTraj`: a whole run of the map-based DE solver under the control loop of Model/Solver.lean, built from a
   configuration record (Model/Config.lean) - which attributes of the configuration a run reads is visible here.
 * ensembles (abstract_ensemble_solver.py `_Step` l.608-682, `_Solve` l.717-809, `__update_bestSolver` l.455-468):
@@ -62,6 +64,77 @@ def run2With [LT E] [DecidableLT E] {D : Type} (o : Obj X E) (strat : List X →
     List (D × List Nat) → DE X E → DE X E
   | [], s => s
   | (d, π) :: gs, s => run2With o strat gs (step2With o π (strat s.pop s.popE s.best d) s)
+
+/-! ### what the evaluator does to its argument
+
+The work items of the map are MUTABLE vectors (`self.trialSolution[i]`, Python lists) and the user's cost and
+penalty may modify the vector they are handed in place (folding, sorting, clamping).  Whether such a write reaches
+the solver's own trial vector depends on the map: an in-process map (`python_map`, threads) hands the worker the
+object itself, a process-based or deep-copying map a copy.  A callable is therefore modelled as a procedure. -/
+
+/-- a Python callable on a mutable vector: the value it returns and the contents it leaves in the vector object
+    it was handed (`fun x => (f x, x)` for a function that does not write to its argument) -/
+abbrev Proc (X E : Type) := X → E × X
+
+/-- `wrap_bounds (wrap_function cost)` (tools.py l.391-429) as a procedure: outside the strict ranges the target is
+    not called (`return inf`); otherwise `the_function(x)` is called on the very object that was passed in -/
+def wrapBoundsP (useRange : Bool) (inBox : X → Bool) (top : E) (cost : Proc X E) : Proc X E :=
+  fun x => if (useRange && !inBox x) = true then (top, x) else cost x
+
+/-- `wrap_penalty` (tools.py l.385-388): `_x = x[:]; return cost_function(_x) + penalty_function(_x)` - both
+    callees work on the copy `_x` (the penalty sees what the cost left in it); the caller's vector is not touched -/
+def wrapPenaltyP (add : E → E → E) (cost pen : Proc X E) : Proc X E :=
+  fun x => (add (cost x).1 (pen (cost x).2).1, x)
+
+/-- NOT the code: `wrap_penalty` without its defensive copy (`cost_function(x) + penalty_function(x)`).  Only used
+    for the witness that shows what the copy is there for (Props/C07 `de2_uncopied_witness`). -/
+def wrapPenaltyNoCopyP (add : E → E → E) (cost pen : Proc X E) : Proc X E :=
+  fun x => (add (cost x).1 (pen (cost x).2).1, (pen (cost x).2).2)
+
+/-- the decorated objective of DE2 (`_decorate_objective`, differential_evolution.py l.464-498: `wrap_function`,
+    `wrap_bounds`, `wrap_penalty`, no `wrap_nested`) as a procedure -/
+def decorated2 (useRange : Bool) (inBox : X → Bool) (top : E) (add : E → E → E) (cost pen : Proc X E) : Proc X E :=
+  wrapPenaltyP add (wrapBoundsP useRange inBox top cost) pen
+
+/-- the objective record of Model/Solver.lean for a pair of user procedures: the values as functions of the
+    vector AT THE TIME OF THE CALL (the penalty is called on what the cost left behind) -/
+def objOfProcs (K : X → X) (inBox : X → Bool) (useRange : Bool) (top : E) (add : E → E → E) (cost pen : Proc X E) :
+    Obj X E :=
+  { raw := fun y => (cost y).1,
+    pen := fun y => (pen (if (useRange && !inBox y) = true then y else (cost y).2)).1,
+    K := K, inBox := inBox, useRange := useRange, top := top, add := add }
+
+/-- the results of the map for an arbitrary procedure `f`, evaluated in the order `π`, keyed by position -/
+def evalOrderP (f : Proc X E) (ys : List X) : List Nat → List (Nat × E)
+  | [] => []
+  | i :: π =>
+    match ys[i]? with
+    | none => evalOrderP f ys π
+    | some y => (i, (f y).1) :: evalOrderP f ys π
+
+/-- the work items after the map: item `i` was handed over as the object itself (`sh i = true`, in-process map:
+    it now holds whatever the procedure left in it) or as a copy (`sh i = false`: forked process, pickling,
+    deep-copying map: untouched) -/
+def itemsAfter (f : Proc X E) (sh : Nat → Bool) (ys : List X) : List X :=
+  List.zipWith (fun i y => if sh i = true then (f y).2 else y) (List.range ys.length) ys
+
+/-- one `_Step` of DE2 (l.544-583) with mutable work items: the map applies the procedure `f` to the constrained
+    trials in the order `π` under the sharing discipline `sh`; `logOf y` is what one evaluation of `y` appends to
+    the record of evaluated points; the selection loop reads `self.trialSolution[candidate]` AFTER the map
+    (`self.population[candidate][:] = self.trialSolution[candidate]`, l.577) -/
+def step2ProcWith [LT E] [DecidableLT E] (f : Proc X E) (logOf : X → Option (X × E)) (K : X → X) (top : E)
+    (sh : Nat → Bool) (π : List Nat) (trials : List X) (s : DE X E) : DE X E :=
+  let ys := trials.map K
+  let es := gather top ys.length (evalOrderP f ys π)
+  let ys' := itemsAfter f sh ys
+  let s1 := DE.selectAll (ys'.zip es) 0 { s with log := s.log ++ π.filterMap (fun i => (ys[i]?).bind logOf) }
+  { s1 with stepLog := s1.stepLog ++ [(s1.best, s1.bestE)] }
+
+/-- the step of the pinned code: the decorated objective built by `wrap_penalty (wrap_bounds (wrap_function ..))` -/
+def step2Proc [LT E] [DecidableLT E] (K : X → X) (inBox : X → Bool) (useRange : Bool) (top : E) (add : E → E → E)
+    (cost pen : Proc X E) (sh : Nat → Bool) (π : List Nat) (trials : List X) (s : DE X E) : DE X E :=
+  step2ProcWith (decorated2 useRange inBox top add cost pen)
+    (fun y => if (useRange && !inBox y) = true then none else some (y, (cost y).1)) K top sh π trials s
 
 /-! ### a run as a function of the configuration -/
 
